@@ -15,10 +15,10 @@ META = {
     "rule": "every connected multigraph topology (multiset of unordered vertex pairs) on n labelled R^d vertices with at most n+1 edges, n<=3 complete, n=4 (quick: <=4 edges), "
     "thorough n=5 (<=5 edges) x edge flavour pattern (odometry/landmark-with-offset, either orientation, alternating) x d in {2,3} x every non-empty fixed subset "
     "x initial guess {truth, generic, far 1e6, mixed signs} x information {I, SPD cross terms, cond 1e4, 1e-10 x SPD} x noise {0, generic}; plus structured families "
-    "chain/ring/star/grid/complete with 10, 20, 30 vertices. Oracle: closed-form reduced WLS (Cholesky-whitened lstsq) for poses and chi2. "
+    "chain/ring/star/grid/complete with 10, 20, 30 vertices. For init=generic the judged run is the SECOND run on the same Graph object (first run: one more vertex fixed, other initial guess; then released and re-seeded). Oracle: closed-form reduced WLS (Cholesky-whitened lstsq) for poses and chi2. "
     "non-trivial = at least one free vertex and the optimum differs from the initial guess by more than 1e-6",
     "assumptions": ["numpy cholesky/lstsq trusted on <= 90 unknowns", "exhaustive up to 4 (quick) / 5 (thorough) vertices; structured (not exhaustive) families above", "tolerance 1e-7 x (1 + scale)"],
-    "required_classes": ["tree", "loop", "multi_edge", "landmark_offset", "reversed_orientation", "several_fixed", "far_init", "ill_conditioned", "noise_free", "noisy", "structured", "d2", "d3"],
+    "required_classes": ["second_run_on_same_graph", "tree", "loop", "multi_edge", "landmark_offset", "reversed_orientation", "several_fixed", "far_init", "ill_conditioned", "noise_free", "noisy", "structured", "d2", "d3"],
     "bounds": {"quick": "n<=3 all; n=4 with <=4 edges; fixed subsets of size <=2; init {generic, far}; Omega {spd, ill}; noise {0 (n<=3), generic}", "thorough": "n<=4 all (<=5 edges); n=5 <=5 edges with single fixed vertex; all factors"},
 }
 
@@ -268,6 +268,21 @@ def _eval_inner(case):
         classes.append("structured")
     sol, chi2s, cond = wls.solve(spec, case["fixed"])
     g, verts, edges = GB.build(spec)
+    if case["init"] == "generic":
+        # history: the same Graph object was already optimised once with one MORE vertex fixed and from another initial guess;
+        # then that vertex is released and every free vertex is re-seeded: the run below must still reach the optimum
+        classes.append("second_run_on_same_graph")
+        free = [i for i, f in enumerate(case["fixed"]) if not f]
+        keep = [np.array(v.pose, dtype=float) for v in verts]
+        if len(free) >= 2:
+            verts[free[-1]].fixed = True
+        for i in free:
+            verts[i].pose = type(verts[i].pose)([3.0 - x for x in keep[i]])
+        GB.optimize(g, max_iter=2, fix_first_pose=False)
+        if len(free) >= 2:
+            verts[free[-1]].fixed = False
+        for i in free:
+            verts[i].pose = type(verts[i].pose)(keep[i])
     before = GB.snapshot(verts)
     res = GB.optimize(g, fix_first_pose=False)
     after = GB.snapshot(verts)
